@@ -136,6 +136,13 @@ Proof.
 Qed.
 Print Assumptions edge_order_total_refuted_F9.
 
+(* the graph-level class used for whole reports is implied by the edge-level one *)
+Theorem F9_edges_need_same_named_nodes : forall (es : list edge) (ns : list node),
+  (forall e, In e es -> In (e_src e) ns /\ In (e_dst e) ns) ->
+  in_F9 es = true -> in_F9_nodes ns = true.
+Proof. exact F9_edges_need_same_named_nodes_lemma. Qed.
+Print Assumptions F9_edges_need_same_named_nodes.
+
 Theorem sprint_not_injective : exists a b, info_eqb a b = false /\ sprint_info a = sprint_info b.
 Proof. eexists. eexists. exact sprint_not_injective_witness. Qed.
 Print Assumptions sprint_not_injective.
